@@ -91,6 +91,13 @@ TEXT = {
                            "revisions strictly increase, no event for a failed CAS, nothing after CANCELED, no data event at or below a "
                            "Progress revision, and the events since registration are a gap-free prefix of the matching applied changes "
                            "(complete if the stream is still open at the end of the quiet period).", "note": _N1},
+    "C25": {"level": "Seeded exploration on the real File and RocksDB state machines: prefix scans (shared prefixes, 0xFF boundary bytes) "
+                     "quiescent, issued from inside apply_chunk at guarded points, and with an apply_chunk driven from inside scan_prefix "
+                     "between the iteration and the read of the revision. Oracle: returned entries == reference model at the returned "
+                     "revision restricted to the prefix; and the documented resynchronisation (scanned entries + every later change with "
+                     "revision > scan.revision) reproduces the final state.",
+            "note": "The serialised simulator cannot interleave two threads by itself; the schedule points are guarded hooks in the engines "
+                    "(MANIFEST.hooks). The empty prefix is not generated (the gRPC API requires a leading '/'; the engines differ on it)."},
     "C26": {"level": _E1 + "Every 25 virtual ms: for every two live nodes that are voters in their own view, no majority of one view is "
                            "disjoint from a majority of the other (closed form over the two voter sets).", "note": _N1},
     "C27": {"level": _E1 + "No vote request or granted vote ever originates from a node whose role is Learner; learners' ACKs are never "
@@ -129,6 +136,5 @@ TEXT = {
 
 NOT_CLAIMED = {
     "C17": "not claimed yet: the snapshot-stream mutation harness (E3) is not built",
-    "C25": "not claimed yet: the scan/apply interleaving harness is not built",
     "C34": "not applicable: RaftConfig::validate() is a pure function of numbers - no schedule, clock, fault or interleaving for a simulator to decide (DESIGN.md §12)",
 }
